@@ -283,6 +283,19 @@ def normalize_url(
     if fix_common_mistakes and query:
         query = fix_common_query_mistakes(query)
 
+    # Unquoting
+    # NOTE: every heuristic below runs on unquoted components, else the way the
+    # url spells its escapes would decide what gets dropped. The quoted form
+    # is the quoted version of the unquoted normalized url.
+    if user:
+        user = safely_unquote_auth_item(user)
+
+    if password:
+        password = safely_unquote_auth_item(password)
+
+    path = safely_unquote_path(path)
+    fragment = safely_unquote_fragment(fragment)
+
     # Dropping :80 & :443
     if port == 80 or port == 443:
         port = None
@@ -332,7 +345,7 @@ def normalize_url(
         # TODO: should be dedupe query items?
         qsl = [
             item
-            for item in safe_qsl_iter(query)
+            for item in safely_unquote_qsl(safe_qsl_iter(query))
             if not should_strip_query_item(
                 item,
                 normalize_amp=normalize_amp,
@@ -384,34 +397,18 @@ def normalize_url(
         path = path.rstrip("/")
 
     # Quoting
-    if user:
-        if quoted:
+    if quoted:
+        if user:
             user = safely_quote(user)
-        else:
-            user = safely_unquote_auth_item(user)
 
-    if password:
-        if quoted:
-            password = safely_quote(password)
-        else:
-            password = safely_unquote_auth_item(password)
+        if password:
+            password = safely_quote(password, "/:")
 
-    if quoted:
         path = safely_quote(path)
-    else:
-        path = safely_unquote_path(path)
-
-    if quoted:
         qsl = safely_quote_qsl(qsl)
-    else:
-        qsl = safely_unquote_qsl(qsl)
+        fragment = safely_quote(fragment)
 
     query = safe_serialize_qsl(qsl)
-
-    if quoted:
-        fragment = safely_quote(fragment)
-    else:
-        fragment = safely_unquote_fragment(fragment)
 
     # Result
     netloc = unsplit_netloc(user, password, hostname, port)
